@@ -1053,6 +1053,9 @@ class FuncAnalysis:
         # ---- plain names
         if isinstance(f, ast.Name) and f.id not in self.env:
             return self.call_name(node, f.id, args, kwargs)
+        if isinstance(f, (ast.Name, ast.Call)) and self.self_name and \
+                self.is_self_class_expr(f):
+            return self.construct_self_class(args, kwargs)
         if isinstance(f, ast.Name):
             # a local holding a function: nested def or parameter
             nested = self.lookup_nested(f.id)
@@ -1067,6 +1070,38 @@ class FuncAnalysis:
             return inner | wrap(join(args))
         self.ev(f)
         return wrap(join(args))
+
+    def construct_self_class(self, args, kwargs):
+        """self.__class__(...), type(self)(...), or a local bound to either:
+        a new object of the receiver's class"""
+        allargs = join(args) | join(kwargs.values())
+        oc = self.func.owner_cls
+        if oc is not None and any(self.prog.Line in k.mro
+                                  for k in self.prog.leaves(oc)):
+            data = args[0] if args else kwargs.get("data", EMPTY)
+            return wrap(wrap(deref(data, "[]"), "[]"), "_data")
+        return wrap(allargs)
+
+    def is_self_class_expr(self, e, depth=0):
+        if depth > 3:
+            return False
+        if isinstance(e, ast.Attribute) and e.attr == "__class__":
+            return self.is_self_node(e.value)
+        if isinstance(e, ast.Call) and isinstance(e.func, ast.Name) and \
+                e.func.id == "type" and len(e.args) == 1 and not e.keywords:
+            return self.is_self_node(e.args[0])
+        if isinstance(e, ast.Name):
+            fn = self.func
+            while fn is not None:
+                vals = [n.value for n in walk_no_nested(fn.node)
+                        if isinstance(n, ast.Assign) and len(n.targets) == 1
+                        and isinstance(n.targets[0], ast.Name) and
+                        n.targets[0].id == e.id]
+                if vals:
+                    return all(self.is_self_class_expr(v, depth + 1)
+                               for v in vals)
+                fn = fn.parent
+        return False
 
     def lookup_nested(self, name):
         fn = self.func
@@ -1333,13 +1368,7 @@ class FuncAnalysis:
             return out
         # self.__class__(...) constructor
         if isinstance(f, ast.Attribute) and name == "__class__":
-            allargs = join(args) | join(kwargs.values())
-            oc = self.func.owner_cls
-            if oc is not None and any(self.prog.Line in k.mro
-                                      for k in self.prog.leaves(oc)):
-                data = args[0] if args else kwargs.get("data", EMPTY)
-                return wrap(wrap(deref(data, "[]"), "[]"), "_data")
-            return wrap(allargs)
+            return self.construct_self_class(args, kwargs)
         recv_node = f.value
         recv = self.ev(recv_node)
         is_self = self.is_self_node(recv_node)
